@@ -145,8 +145,24 @@ def swapAt {α} (xs : List α) (k l : Nat) : List α :=
   | some a, some b => (xs.set k b).set l a
   | _, _ => xs
 
-/-- the edited transaction.  A position beyond the end of the list leaves the transaction as it is
-    (`insert` accepts the position just after the last element: it appends). -/
+/-- Python `xs.insert(k, x)` for `k ≥ 0`: a position beyond the end APPENDS -/
+def pyInsert {α} (xs : List α) (k : Nat) (x : α) : List α := xs.insertIdx (min k xs.length) x
+
+/-- the edit can be carried out by ordinary Python list mutation: `xs.insert(k, x)` always can (see
+    `pyInsert`); `xs[k].field = v`, `del xs[k]` and the swap `xs[k], xs[l] = xs[l], xs[k]` raise
+    IndexError when a position does not exist — the edit is then NOT APPLICABLE (positions are
+    naturals here; Python's negative positions are outside the catalogue) -/
+def applicable : Edit → Tx → Bool
+  | .setPrevHash k _, t | .setPrevN k _, t | .setScriptSig k _, t | .setSequence k _, t | .removeInput k, t =>
+      k < t.vin.length
+  | .setValue k _, t | .setSpk k _, t | .removeOutput k, t => k < t.vout.length
+  | .swapInputs k l, t => k < t.vin.length && l < t.vin.length
+  | .swapOutputs k l, t => k < t.vout.length && l < t.vout.length
+  | _, _ => true
+
+/-- the edited transaction.  Insertion follows `list.insert` (beyond the end: append).  An edit that
+    is not `applicable` (Python raises IndexError and the transaction stays as it was) leaves the
+    transaction unchanged. -/
 def apply : Edit → Tx → Tx
   | .setPrevHash k h, t => { t with vin := t.vin.modify k fun x => { x with prevout := { x.prevout with hash := h } } }
   | .setPrevN k n, t => { t with vin := t.vin.modify k fun x => { x with prevout := { x.prevout with n := n } } }
@@ -154,10 +170,10 @@ def apply : Edit → Tx → Tx
   | .setSequence k q, t => { t with vin := t.vin.modify k fun x => { x with nSequence := q } }
   | .setValue k v, t => { t with vout := t.vout.modify k fun o => { o with nValue := v } }
   | .setSpk k s, t => { t with vout := t.vout.modify k fun o => { o with scriptPubKey := s } }
-  | .insertInput k x, t => { t with vin := t.vin.insertIdx k x }
+  | .insertInput k x, t => { t with vin := pyInsert t.vin k x }
   | .removeInput k, t => { t with vin := t.vin.eraseIdx k }
   | .swapInputs k l, t => { t with vin := swapAt t.vin k l }
-  | .insertOutput k o, t => { t with vout := t.vout.insertIdx k o }
+  | .insertOutput k o, t => { t with vout := pyInsert t.vout k o }
   | .removeOutput k, t => { t with vout := t.vout.eraseIdx k }
   | .swapOutputs k l, t => { t with vout := swapAt t.vout k l }
   | .setLockTime n, t => { t with nLockTime := n }
@@ -187,6 +203,15 @@ def Committed (ht i : Nat) : Edit → Bool
 
 /-- the edit is confined to parts the hash type leaves uncommitted -/
 def Uncommitted (ht i : Nat) (e : Edit) : Bool := !Committed ht i e
+
+/-- side condition of the table row for insertions: the row "inserting after position `i` is
+    uncommitted" reads the insert position literally; a position beyond the end appends, which is
+    after position `i` only if input / output `i` exists.  (When it does not, the signature hash is
+    in its "return one" case and an appended element can create position `i`.) -/
+def insertSafe (i : Nat) : Edit → Tx → Bool
+  | .insertInput k _, t => k ≤ t.vin.length || i < t.vin.length
+  | .insertOutput k _, t => k ≤ t.vout.length || i < t.vout.length
+  | _, _ => true
 
 /-- an edit that writes one committable field: of an input, of an output, nLockTime or nVersion -/
 def isFieldSet : Edit → Bool
